@@ -55,15 +55,31 @@ def gen_cases(tier, seed):
     yield Case(5015, [1], [], 'client context manager, exit by exception')
     yield Case(5015, [0, 1], [], 'client context manager, link dropped inside, normal exit')
     yield Case(5015, [1, 1], [], 'client context manager, link dropped inside, exit by exception')
+    for raises in (0, 1):
+        for dropped in (0, 1):
+            yield Case(5015, [raises, dropped, 1], [], 'client context manager after an attempt to enter it failed (the transport could not be opened)')
+            yield Case(5015, [raises, dropped, 2], [], 'client context manager used a second time')
 
 
 def worker_init():
     cl.setup()
 
 
-def ctx_manager(raises, dropped=False):
+def ctx_manager(raises, dropped=False, before=0):
     client, conn, clk = cl.make_client(cl.DEFAULT_CFG)
     conn.opened = False
+    if before == 1:          # a first attempt to enter the block fails in open(); the application catches that and tries again later
+        conn.open_fault = True
+        try:
+            with client:
+                raise AssertionError('the block must not run when the connection cannot be opened')
+        except OSError:
+            pass
+        conn.opened = False
+    if before == 2:          # an earlier complete use of the same client object
+        with client:
+            pass
+    conn.open_calls = conn.close_calls = 0
     try:
         with client:
             opened_inside = conn.is_open()
@@ -123,7 +139,7 @@ def impl(c):
     if c.entry == 1603:
         return base_send(c.ints[0], c.ints[1], c.ints[2], c.blobs[0])
     if c.entry == 5015:
-        return ctx_manager(c.ints[0] == 1, len(c.ints) > 1 and c.ints[1] == 1)
+        return ctx_manager(c.ints[0] == 1, len(c.ints) > 1 and c.ints[1] == 1, c.ints[2] if len(c.ints) > 2 else 0)
     return cl.run_history_case(c)
 
 
